@@ -410,6 +410,11 @@ fn fuzz_program(r: &mut Rng) -> Option<(Value, Value)> {
 // ---------------------------------------------------------------------------
 // helpers
 
+fn rbytes(r: &mut Rng, lo: u64, span: u64) -> Vec<u8> {
+    let k = lo + r.below(span);
+    r.bytes(k as usize)
+}
+
 const KNOWN_BITS: u32 = 0x3f7f;
 const PY_DEFAULT_MAX_ATOM_LEN: usize = 1 << 20;
 const MAGIC: [u8; 6] = [0xfd, 0xff, 0x32, 0x30, 0x32, 0x36];
@@ -784,7 +789,7 @@ fn mutate(r: &mut Rng, blob: &mut Vec<u8>) -> &'static str {
             "flip-bit"
         }
         5 => {
-            blob.extend_from_slice(&r.bytes(1 + r.below(4) as usize));
+            blob.extend_from_slice(&rbytes(&mut *r, 1 as u64, 4));
             "trailing"
         }
         6 => {
@@ -799,7 +804,7 @@ fn mutate(r: &mut Rng, blob: &mut Vec<u8>) -> &'static str {
         }
         8 => {
             let mut b = MAGIC.to_vec();
-            b.extend_from_slice(&r.bytes(r.below(8) as usize));
+            b.extend_from_slice(&rbytes(&mut *r, 0, 8));
             *blob = b;
             "magic-junk"
         }
@@ -936,12 +941,12 @@ fn gen_blobs(seed: u64, n: u64, out: &mut Out) {
             10 => {
                 blob = vec![0xfe, 0, 0, 0, 0, 0, r.below(4) as u8];
                 let k = blob[6] as usize;
-                blob.extend_from_slice(&r.bytes(k + r.below(2) as usize));
+                blob.extend_from_slice(&rbytes(&mut r, k as u64, 2));
                 "fe-prefix"
             }
             11 => {
                 blob = vec![*r.pick(&[0xfcu8, 0xfd, 0xfe]), *r.pick(&[0u8, 3, 4, 0x80]), 0, 0, 0, *r.pick(&[0u8, 2])];
-                blob.extend_from_slice(&r.bytes(r.below(4) as usize));
+                blob.extend_from_slice(&rbytes(&mut r, 0, 4));
                 "big-size"
             }
             12 => {
@@ -966,7 +971,7 @@ fn gen_blobs(seed: u64, n: u64, out: &mut Out) {
                 "set-byte"
             }
             19 => {
-                blob.extend_from_slice(&r.bytes(1 + r.below(3) as usize));
+                blob.extend_from_slice(&rbytes(&mut r, 1 as u64, 3));
                 "trailing"
             }
             _ => {
@@ -1052,7 +1057,7 @@ fn gen_ints(seed: u64, n: u64, out: &mut Out) {
                 0 => r.pick(BOUNDARY_ATOMS).to_vec(),
                 1 => {
                     let mut v = vec![*r.pick(&[0u8, 0xff]); 1 + r.below(3) as usize];
-                    v.extend_from_slice(&r.bytes(r.below(4) as usize));
+                    v.extend_from_slice(&rbytes(&mut r, 0, 4));
                     v
                 }
                 _ => { let k = r.below(20) as usize; r.bytes(k) }
